@@ -457,6 +457,14 @@ def cfg_evo(cfg):
 # ------------------------------------------------------------------------------------------------
 # the direct oracle: the property text on the real objects
 
+NESTED_SIG = 'C15/nested-deduping/shared-metadata-slots'
+NESTED_WITNESS = dict(space='s6', alg=['dedup', ['dedup', ['gevo', ['sweep'], 2, ['none'], 1], 2, 0, 1, 100], 2, 0, 1, 100],
+                      rewards=[1, 1, 1, 1, 1, 1], sched=['p', 'p', 'f', 'p'])
+NESTED_KINDS = ['dedup-dedup-rand', 'dedup-dedup-hill', 'dedup-dedup-gevo']
+
+def is_nested(cfg):
+  return cfg[0] == 'dedup' and cfg[1][0] == 'dedup'
+
 def deterministic(cfg):
   """Algorithms whose proposals are a function of history and seed: Sweeping, seeded Random, Deduping over them."""
   if cfg[0] == 'sweep':
@@ -560,6 +568,9 @@ def evaluate_case(case, lv=None):
     for i in o[5]:
       yield from walk(i)
   skipped = sum(1 for o in outs[-1:] for x in walk(o[0]) for d in x[2] if d[7])
+  if is_nested(cfg) and hits:
+    # one known shape, one signature: the two wrappers share the 'dedup_key' / 'dedup_skipped' metadata slots
+    hits = [(NESTED_SIG, 'Deduping directly over Deduping shares the dedup_key / dedup_skipped metadata slots of the DNA: ' + what, c) for _, what, c in hits]
   info = dict(proposals=len(P), terminal=res['terminal'], repro=res['repro'], updates=res['updates'], crash_points=nsn,
               evolve_calls=len(res['repro']), max_population=max([len(x[2]) for o in allobs for x in walk(o)] or [0]),
               cache_keys=max([len(x[3]) for o in allobs for x in walk(o)] or [0]),
@@ -605,6 +616,9 @@ def gen_cfg(rng, kind):
     size = rng.choice([None, 0, 1, 2, 3, 4]) if init[0] != 'rand' else rng.choice([1, 2, 3, 4])
     upd = rng.choice([['none'], ['last', rng.choice([1, 2, 3])], ['top', rng.choice([1, 2])], ['laststep', rng.choice([1, 2]), rng.choice([2, 3])]])
     return ['gevo', init, size, upd, rng.choice([1, 1, 2, 3])]
+  if kind.startswith('dedup-dedup-'):
+    # a Deduping directly over a Deduping (the outer one with a custom hash: the default hash would cover the inner key)
+    return ['dedup', gen_cfg(rng, kind[6:]), rng.choice([2, 3]), 0, rng.choice([1, 2]), rng.choice([3, 100])]
   if kind.startswith('dedup-'):
     inner = gen_cfg(rng, kind[6:])
     auto = rng.choice([0, 1, 2]) if needs_feedback(inner) else rng.choice([0, 0, 1])
@@ -756,6 +770,18 @@ def plan(ctx):
     for w in (0, 1, 2, 3):
       for n in ctx.scale([8], [6, 14, 30]):
         cases.append(('lag%d' % w, gen_case(rng, kind, n=n, lag=w)))
+  # open finding (nested Deduping): its witness is replayed first; while it still fails the model (which shares the
+  # metadata slots exactly as the code does) is run against the code on that shape too, otherwise the shape is left out
+  try:
+    nested_open = any(sig == NESTED_SIG for sig, _, _ in evaluate_case(NESTED_WITNESS)[1])
+  except Exception:
+    nested_open = True
+  ctx.extra['open_finding_nested_deduping_reproduced'] = nested_open
+  if nested_open and not os.environ.get('C15_KINDS'):
+    cases.append(('known-finding', NESTED_WITNESS))
+    for kind in NESTED_KINDS:
+      for _ in range(ctx.scale(2, 40)):
+        cases.append(('random', gen_case(rng, kind, n=rng.choice([6, 10, 14]))))
   for _ in range(ctx.scale(4, 110) * (len(KINDS) // len(kinds))):      # round-robin over the kinds: a wall-clock cut
     for kind in kinds:                                                  # of the tail costs every kind the same
       cases.append(('random', gen_case(rng, kind)))
@@ -861,7 +887,9 @@ def run(ctx):
     for sig, what, c in hits:
       nhits += 1
       known = any(f['signature'] == sig for f in ctx.open_findings()) or any(h['signature'] == sig for h in ctx.hits)
-      small = case if known or len(ctx.hits) >= 5 else shrink(case, sig, c)
+      import time as _t
+      late = _t.time() - ctx.t0 > ctx.scale(85, 1700)           # no shrinking once the wall-clock budget is used up
+      small = case if known or late or len(ctx.hits) >= 5 else shrink(case, sig, c, budget=25)
       ctx.hit(sig, what, dict(case=small, crash_point=c, original_schedule=''.join(case['sched'])))
   ctx.log('implementation: %d cases, %d crash points, %d oracle hits' % (len(results), ctx.extra.get('crash_points_total', 0), nhits))
   model = ctx.model_run(trs)
